@@ -426,3 +426,48 @@ Proof.
   pose proof (contained_core c' nd (spath p) (node_stack c' t p nd) (A Q) (B GR) (W WF) ND) as CC.
   rewrite MP in CC. exact CC.
 Qed.
+
+(* ------------------------------------------------------------------ requested paths: the engine meets the specification (C01) *)
+Lemma parent_stack_rep c t p nd :
+  fault_free t = true -> wf_tree t = true -> canonical_path p = true -> lookup t p = Some nd ->
+  exists ms, parent_stack c t p = Some ms /\ stack_rep c t ms (spath p).
+Proof.
+  intros FF WF CAN L. destruct (canonical_spath p CAN) as [MP ND]. unfold parent_stack.
+  destruct (c_gitignore c) eqn:G; [|exists []; split; [reflexivity|intros G'; congruence]].
+  destruct (spath p) as [|r rest] eqn:SP.
+  - (* the root itself *)
+    assert (E : p = [DOT]) by (rewrite <- MP; reflexivity). clear MP. subst p.
+    unfold parse_parent_gitignores. rewrite ln_eqb_refl. exists []. split; [reflexivity|apply stack_rep_nil].
+  - rewrite lookup_spath, SP in L.
+    destruct (parse_parent_rep c t (r :: rest) nd FF WF ltac:(discriminate) ND L) as (ms & PP & SR).
+    assert (E : p = r :: rest) by (rewrite <- MP; reflexivity). clear MP. subst p. rewrite PP. exists ms. split; [reflexivity|exact SR].
+Qed.
+
+(* The Extract calls of a request for any list of paths -- files and directories mixed, missing paths, the
+   sub-directory cut-off on or off -- are exactly the specified ones: per requested path, in request order, a
+   directory as the whole-tree rules prescribe from that directory down (with the .gitignore files of all its
+   ancestors), a file iff required (kind and size permitting).  Subsumes subdir_request_equiv,
+   requested_file_direct and requested_paths_independent. *)
+Theorem requested_paths_exact_lemma c t :
+  c_paths c <> [] -> wf_tree t = true -> fault_free t = true -> no_limits c = true -> no_xpanic c ->
+  (forall p, In p (c_paths c) -> canonical_path p = true) ->
+  (c_fatal c = false \/ forall p, In p (c_paths c) -> lookup t p <> None) ->
+  fs_calls c t = expected_paths c t.
+Proof.
+  intros NE WF FF NL NP CAN OK.
+  rewrite (fs_calls_paths c t (c_paths c) eq_refl NE NL NP).
+  2:{ apply forallb_forall. intros p Hp. apply path_quiet_ff; [exact FF|].
+      destruct OK as [OK|OK]; [left; exact OK|right; apply OK; exact Hp]. }
+  unfold expected_paths. rewrite flat_map_flat_map, calls_flat_map. apply flat_map_ext_in. intros p Hp.
+  destruct (canonical_spath p (CAN p Hp)) as [MP ND].
+  unfold expected_for_path, path_sched. rewrite <- lookup_spath.
+  destruct (lookup t p) as [nd|] eqn:L; [|reflexivity].
+  pose proof (lookup_ff t p nd FF L) as Fnd. rewrite (fault_free_stat nd Fnd).
+  destruct nd as [n k sz d ff|n ch df].
+  - cbn [flat_map]. rewrite app_nil_r. cbn [fault_free] in Fnd. rewrite (file_call_calls c [] p n k sz d ff Fnd).
+    cbn [gi_match_stack existsb]. rewrite andb_false_r. cbn [negb]. rewrite andb_true_r. reflexivity.
+  - destruct (parent_stack_rep c t p _ FF WF (CAN p Hp) L) as (ms & PS & SR). rewrite PS.
+    change (calls (flat_map (call_events c) (schedule c ms p (Dir n ch df)))) with (sched_calls c ms p (Dir n ch df)).
+    rewrite lookup_spath in L. destruct (lookup_from_wf_ff _ _ _ L) as [W _].
+    pose proof (sched_calls_spec c t (Dir n ch df) (spath p) ms L ND (W WF) Fnd SR) as X. rewrite MP in X. exact X.
+Qed.
